@@ -1478,7 +1478,7 @@ func (m *MapPollard) Read(r io.Reader) (int, error) {
 	var buf [8]byte
 
 	// Read the total rows.
-	bytes, err := r.Read(buf[:1])
+	bytes, err := io.ReadFull(r, buf[:1])
 	if err != nil {
 		return totalBytes, err
 	}
@@ -1487,7 +1487,7 @@ func (m *MapPollard) Read(r io.Reader) (int, error) {
 	verifPoint("read.afterTotalRows")
 
 	// Read the number of leaves.
-	bytes, err = r.Read(buf[:])
+	bytes, err = io.ReadFull(r, buf[:])
 	if err != nil {
 		return totalBytes, err
 	}
@@ -1496,7 +1496,7 @@ func (m *MapPollard) Read(r io.Reader) (int, error) {
 	verifPoint("read.afterHeader")
 
 	// Read the count for the cache leaf elements in the map.
-	bytes, err = r.Read(buf[:])
+	bytes, err = io.ReadFull(r, buf[:])
 	if err != nil {
 		return totalBytes, err
 	}
@@ -1506,14 +1506,14 @@ func (m *MapPollard) Read(r io.Reader) (int, error) {
 	// Read elements and put them in the map.
 	var hash Hash
 	for i := 0; i < int(numCachedLeaves); i++ {
-		read, err := r.Read(hash[:])
+		read, err := io.ReadFull(r, hash[:])
 		if err != nil {
 			return totalBytes, err
 		}
 		totalBytes += read
 
 		// Read the number of leaves.
-		bytes, err = r.Read(buf[:])
+		bytes, err = io.ReadFull(r, buf[:])
 		if err != nil {
 			return totalBytes, err
 		}
@@ -1523,7 +1523,7 @@ func (m *MapPollard) Read(r io.Reader) (int, error) {
 	verifPoint("read.afterCached")
 
 	// Read the count for the node elements in the map.
-	bytes, err = r.Read(buf[:])
+	bytes, err = io.ReadFull(r, buf[:])
 	if err != nil {
 		return totalBytes, err
 	}
@@ -1532,14 +1532,14 @@ func (m *MapPollard) Read(r io.Reader) (int, error) {
 
 	var leafBuf [33]byte
 	for i := 0; i < int(nodeCount); i++ {
-		bytes, err := r.Read(buf[:])
+		bytes, err := io.ReadFull(r, buf[:])
 		if err != nil {
 			return bytes, err
 		}
 		totalBytes += bytes
 		position := binary.LittleEndian.Uint64(buf[:])
 
-		read, err := r.Read(leafBuf[:])
+		read, err := io.ReadFull(r, leafBuf[:])
 		if err != nil {
 			return totalBytes, err
 		}
